@@ -115,11 +115,25 @@ pub struct CrashPlan {
     pub sector_tear: bool,
     pub layout: bool,
     pub probe_auto_ts: bool,
+    /// after the recovery of every image: delete every recovered key, flush, reopen (C02:
+    /// an acknowledged delete never comes back)
+    pub continue_after: bool,
 }
 
 /// Share of the time budget a suite gets. Nested passes (crash inside recovery) spend
 /// their time where recovery itself writes: TTL generations to retire, tiny devices.
-fn suite_weight(_prop: &str, nest: usize, name: &str) -> f64 {
+fn suite_weight(prop: &str, nest: usize, name: &str) -> f64 {
+    if prop == "C02" {
+        // durability of acknowledged writes: the histories that need depth are overwrite /
+        // delete chains with extent reuse; value shapes and the legacy formats add little
+        return if ["ttl-reuse-v3", "crash-reuse-v3", "full4", "small", "core-v3"].iter().any(|k| name.contains(k)) {
+            3.0
+        } else if ["evil", "edge", "core-v2", "uring", "end5", "ttl-big", "reuse-v2"].iter().any(|k| name.contains(k)) {
+            0.4
+        } else {
+            1.0
+        };
+    }
     if nest == 0 {
         return 1.0;
     }
@@ -154,7 +168,7 @@ pub fn crash_check(prop: &str, suites: Vec<Suite>, accept: &[&str], plan: CrashP
             let ob = Obligations::from_path(&keys, &ops, &po.outs, &po.snapshots, &po.log, s.cfg.ttl, s.cfg.data_blocks > 12);
             let from = ob.op_begin.last().copied().unwrap_or(0);
             let now = po.final_model.as_ref().map(|m| m.now).unwrap_or(crate::sut::T0);
-            let opts = CrashOpts { sector_tear: plan.sector_tear, reopen_cycles: plan.reopen_cycles, nest: plan.nest, now, probe_auto_ts: plan.probe_auto_ts };
+            let opts = CrashOpts { sector_tear: plan.sector_tear, reopen_cycles: plan.reopen_cycles, nest: plan.nest, now, probe_auto_ts: plan.probe_auto_ts, continue_after: plan.continue_after };
             let ctx = hash64(&[s.name.as_bytes(), format!("{:?}", ob.hists).as_bytes(), &now.to_le_bytes()]);
             let (mut st, mut findings) = if plan.crash {
                 crash::check_history(&s.cfg, base, &po.log, &ob, from, &opts, &seen, ctx)
@@ -164,7 +178,7 @@ pub fn crash_check(prop: &str, suites: Vec<Suite>, accept: &[&str], plan: CrashP
             if plan.crash && s.cfg.ttl {
                 // the restart may happen long after the crash: recover every image again
                 // at an instant past every expiry
-                let later = CrashOpts { now: now + 100_000 * 1_000_000_000, sector_tear: false, reopen_cycles: 0, nest: 0, probe_auto_ts: false };
+                let later = CrashOpts { now: now + 100_000 * 1_000_000_000, sector_tear: false, reopen_cycles: 0, nest: 0, probe_auto_ts: false, continue_after: false };
                 let (st2, f2) = crash::check_history(&s.cfg, base, &po.log, &ob, from, &later, &seen, ctx ^ 0x7711);
                 st.images += st2.images;
                 st.distinct += st2.distinct;
